@@ -87,6 +87,11 @@ def expected_decode_class(code: int, is_request: bool, plain: bool = False, tabl
         return UndefinedMessage
     if plain:
         return base
+    if not base.__module__.startswith("diameter.") and \
+            getattr(base.type_factory, "__func__", None) is Message.type_factory.__func__:
+        # a command defined by the user that leaves type_factory at its default: "If no type is returned, the base class
+        # type will be used" (documentation of Message.type_factory). The library's own commands all have one.
+        return base
     want = base.__name__ + ("Request" if is_request else "Answer")
     for s in base.__subclasses__():
         if s.__name__ == want:
